@@ -198,6 +198,122 @@ class RtdcCopy(Contract):
         return posts
 
 
+class BasinDicts(Contract):
+    """RTDC_HDF5.basin_get_dicts_from_h5file(h5): one dict per member of h5["basins"], in the
+    order of the group, each carrying its group key under "key" (the JSON decoding of the
+    stored text is not modelled: the dicts are the ones the unit put into the file)"""
+    name = "RTDC_HDF5.basin_get_dicts_from_h5file"
+    trusted = True
+
+    def __call__(self, interp, h5file):
+        import copy
+        return [copy.deepcopy(d) for d in interp.cur_frame.unit._defs]
+
+
+class WriteText(Contract):
+    """RTDCWriter.write_text(group, name, lines): creates the text dataset group[name] (C01)"""
+    name = "RTDCWriter.write_text"
+    trusted = True
+
+    def __call__(self, interp, self_, group, name, lines):
+        h5model.note_h5_write(interp, group, f"write_text {name}")
+        interp.heap_write(group)
+        interp.cur_frame.unit._written.append((name, list(lines) if isinstance(lines, list) else lines))
+        group.fields["members"][name] = new_dataset(interp.ctx, interp.ctx.arr("text_" + str(len(interp.cur_frame.unit._written)), "elem"),
+                                                    name="/basins/" + str(name))
+        return group.fields["members"][name]
+
+
+class BasinDefinitionCopy(Contract):
+    """basin_definition_copy(src, dst, features_iter): every basin definition of the source
+    ends up in the destination exactly once -- copied as it is, or, for an internal basin
+    whose features are only partly selected, rewritten with exactly the selected features;
+    an internal basin none of whose features is selected is dropped"""
+    path = COP
+    module = CMOD
+    qualname = "basin_definition_copy"
+    params = ("src_h5file", "dst_h5file", "features_iter")
+    native = {"json.dumps", "hashobj"}
+
+    CONFIGS = {
+        "two file basins": ([{"type": "file", "format": "hdf5", "name": "b1", "features": ["area_cvx"], "paths": ["x1.rtdc"]},
+                             {"type": "file", "format": "hdf5", "name": "b2", "features": ["area_ratio"], "paths": ["x2.rtdc"]}],
+                            ["deform", "area_um"]),
+        "three basins (file, remote, file)": (
+            [{"type": "file", "format": "hdf5", "name": "b1", "paths": ["x1.rtdc"]},
+             {"type": "remote", "format": "dcor", "name": "b2", "urls": ["https://example.com/api/3/action/dcserv?id=1"]},
+             {"type": "file", "format": "hdf5", "name": "b3", "paths": ["x3.rtdc"]}], ["deform"]),
+        "internal basin partly selected, then a file basin": (
+            [{"type": "internal", "format": "h5dataset", "name": "int", "features": ["userdef1", "image_bg"], "paths": ["basin_events"]},
+             {"type": "file", "format": "hdf5", "name": "b2", "paths": ["x2.rtdc"]}], ["deform", "userdef1"]),
+        "file basin, then an internal basin partly selected": (
+            [{"type": "file", "format": "hdf5", "name": "b1", "paths": ["x1.rtdc"]},
+             {"type": "internal", "format": "h5dataset", "name": "int", "features": ["userdef1", "image_bg"], "paths": ["basin_events"]}],
+            ["deform", "userdef1"]),
+        "internal basin fully selected and a file basin": (
+            [{"type": "internal", "format": "h5dataset", "name": "int", "features": ["userdef1"], "paths": ["basin_events"]},
+             {"type": "file", "format": "hdf5", "name": "b2", "paths": ["x2.rtdc"]}], ["userdef1", "deform"]),
+        "internal basin not selected and two file basins": (
+            [{"type": "file", "format": "hdf5", "name": "b1", "paths": ["x1.rtdc"]},
+             {"type": "internal", "format": "h5dataset", "name": "int", "features": ["image_bg"], "paths": ["basin_events"]},
+             {"type": "file", "format": "hdf5", "name": "b3", "paths": ["x3.rtdc"]}], ["deform"]),
+    }
+
+    def __init__(self, config):
+        self.config = config
+        self.name = f"basin_definition_copy[{config}]"
+        super().__init__()
+        self.callees = {"h5ds_copy": H5dsCopy(), "RTDC_HDF5.basin_get_dicts_from_h5file": BasinDicts(),
+                        "RTDCWriter.write_text": WriteText(), **C10.WRITER_METHODS}
+        for k, v in C10.WRITER_CLASS.items():
+            setattr(self, k, v)
+
+    def inputs(self, ctx):
+        defs, feats = self.CONFIGS[self.config]
+        self._defs = [dict(d, key=f"key{i}") for i, d in enumerate(defs)]
+        members = {d["key"]: new_dataset(ctx, ctx.arr("def_" + d["key"], "elem"), name="/basins/" + d["key"]) for d in self._defs}
+        self._src_members = dict(members)
+        src = new_group(ctx, members={"basins": new_group(ctx, members=members, name="/basins")}, name="/")
+        dst = new_group(ctx, name="/")
+        dst.fields["name"] = "/dst"
+        self._dst = dst
+        self._copied, self._written = [], []
+        return {"src_h5file": src, "dst_h5file": dst, "features_iter": list(feats)}
+
+    def ensures(self, ctx, old, a, result):
+        feats = self.CONFIGS[self.config][1]
+        want_copy, want_write = [], []
+        for d in self._defs:
+            if d["type"] == "internal":
+                used = [f for f in d["features"] if f in feats]
+                if not used:
+                    continue
+                if used != d["features"]:
+                    want_write.append(used)
+                    continue
+            want_copy.append(d["key"])
+        copied = [c[1] for c in self._copied]
+        bas = self._dst.fields["members"].get("basins")
+        held = bas.fields["members"] if bas is not None else {}
+        posts = [("every basin definition that is kept as it is is copied exactly once, under its own key",
+                  z3.BoolVal(sorted(copied) == sorted(want_copy)
+                             and all(held.get(k) is self._src_members[k] for k in want_copy))),
+                 ("an internal basin whose features are partly selected is rewritten once, with exactly the selected features",
+                  z3.BoolVal(len(self._written) == len(want_write)
+                             and all(_written_features(w[1]) == u for w, u in zip(self._written, want_write)))),
+                 ("the destination holds one definition per kept basin and nothing else",
+                  z3.BoolVal(len(held) == len(want_copy) + len(want_write)))]
+        return posts
+
+
+def _written_features(lines):
+    import json
+    try:
+        return json.loads("".join(lines)).get("features")
+    except Exception:
+        return None
+
+
 class WholeFile(Contract):
     """value identity of input and output files of compress / repack / condense / tdms2rtdc, and compress /
     repack applied to their own output (bounded stand-in)"""
@@ -214,7 +330,8 @@ class WholeFile(Contract):
 
 UNITS = [RepackSelection(), CompressSelection(), CondenseSelection()] \
     + [RtdcCopy(f, l, t) for (f, l, t) in (("all", True, True), ("scalar", True, True), ("all", False, True),
-                                           ("all", True, False), ("none", False, False))] + [WholeFile()]
+                                           ("all", True, False), ("none", False, False))] \
+    + [BasinDefinitionCopy(c) for c in BasinDefinitionCopy.CONFIGS] + [WholeFile()]
 TRUSTED = [H5dsCopy()] + C10.TRUSTED
 TRUSTED_BASE = ["H-CREATE / H-ATTR (HDF5 object model)", "h5ds_copy transfers content and attributes (bounded stand-in)"]
 ASSUMPTIONS = ["the ghost file system of C10 without fault injection carries the task units",
@@ -283,10 +400,17 @@ def replay(unit_name, inp, obligation=""):
     from dclab import cli
     import dclab
     from dclab.rtdc_dataset import RTDCWriter
+    if unit_name.startswith("basin_definition_copy["):
+        return _replay_basins(unit_name[len("basin_definition_copy["):-1])
     with warnings.catch_warnings(), tempfile.TemporaryDirectory(prefix="c08_") as td:
         warnings.simplefilter("ignore")
         d = pathlib.Path(td)
         f = N.make_rtdc(d / "in.v1.rtdc", n=7, seed=int(inp.get("seed", 1)))
+        with RTDCWriter(f, mode="append") as hw:
+            # two basins that cannot be resolved: their definitions must survive all the same
+            for i in (1, 2):
+                hw.store_basin(basin_name=f"b{i}", basin_type="file", basin_format="hdf5", basin_locs=[str(d / f"gone{i}.rtdc")],
+                               basin_feats=["area_cvx", "area_ratio"][i - 1:i], verify=False)
         with RTDCWriter(f, mode="append") as hw:
             hw.store_log("ünï-log", ["ü" * 120, "short", "日本語" * 50])
             hw.store_metadata({"user": {"a:b": 3, "note": "x = y"}})
@@ -338,6 +462,51 @@ def replay(unit_name, inp, obligation=""):
                     if feat not in dc or not np.allclose(ds[feat], dc[feat], equal_nan=True):
                         return {"failed": True, "detail": f"dclab-tdms2rtdc: feature '{feat}' differs from the .tdms source"}
     return {"failed": False, "detail": "outputs are value-identical to the inputs (apart from the added command logs)"}
+
+
+def _replay_basins(config):
+    """basin_definition_copy on a real file holding the definitions of the configuration"""
+    import json
+    import pathlib
+    import tempfile
+    import warnings
+    import h5py
+    from contracts import c10_native as N
+    N._import()
+    from dclab.rtdc_dataset import RTDCWriter
+    from dclab.rtdc_dataset.copier import basin_definition_copy
+    from dclab.rtdc_dataset.fmt_hdf5 import RTDC_HDF5
+    defs, feats = BasinDefinitionCopy.CONFIGS[config]
+    with warnings.catch_warnings(), tempfile.TemporaryDirectory(prefix="c08b_") as td:
+        warnings.simplefilter("ignore")
+        d = pathlib.Path(td)
+        f = N.make_rtdc(d / "in.rtdc", n=5, seed=1)
+        with RTDCWriter(f, mode="append") as hw:
+            for i, bn in enumerate(defs):
+                hw.write_text(hw.h5file.require_group("basins"), f"key{i}", json.dumps(bn, indent=2).split("\n"))
+        want = []
+        for bn in defs:
+            bn = dict(bn)
+            if bn["type"] == "internal":
+                bn["features"] = [x for x in bn["features"] if x in feats]
+                if not bn["features"]:
+                    continue
+            want.append(bn)
+        with h5py.File(f, "r") as src, h5py.File(d / "out.rtdc", "w") as dst:
+            try:
+                basin_definition_copy(src, dst, list(feats))
+            except Exception as ex:
+                return {"failed": True, "detail": f"basin_definition_copy of a file with the basins {[b['name'] for b in defs]} and the "
+                                                  f"selected features {feats} raises {type(ex).__name__}: {ex}"}
+            got = RTDC_HDF5.basin_get_dicts_from_h5file(dst)
+        for g in got:
+            g.pop("key", None)
+        canon = lambda lst: sorted(json.dumps(x, sort_keys=True) for x in lst)   # noqa: E731
+        if canon(got) != canon(want):
+            return {"failed": True, "detail": f"basins {[b['name'] for b in defs]}, selected features {feats}: the output defines "
+                                              f"{[(b.get('name'), b.get('features')) for b in got]}, expected "
+                                              f"{[(b.get('name'), b.get('features')) for b in want]}"}
+    return {"failed": False, "detail": "every kept basin is defined exactly once in the output"}
 
 
 def in_carve_out(unit_name, inp):
